@@ -192,6 +192,7 @@ def execute(case, ctx):
         b = _call(B, op)
         hit = A.cache.stats['hit'] > hits0
         ctx.event(step, op['op'], canon.digest(a), hit)
+        ctx.state(canon.digest([sorted(A.cache.d), a[0]]))
         what = 'step %d %s(%r) [cache %s%s]' % (step, op['op'], op['src'][:160], cfg['cache']['kind'], ', hit' if hit else '')
         if a[0] == 'base':
             ctx.report('non_exception_escaped', '%s: %s' % (what, a), {'kind': 'non_exception_escaped'})
